@@ -10,13 +10,13 @@ import datetime
 import json
 import os
 
-from lib import common, dtres
+from lib import common, dtres, datefrontcorr
 from lib.common import cps
 
 PROP = 'C06'
 LEVEL = 'proof'
 PROPS_MODULES = ['RTV.Props.C06']
-GEN = ['chartables', 'dtmaps']
+GEN = ['chartables', 'dtmaps', 'dateregex', 'regexes']
 REQUIRED_THEOREMS = ['abs_date', 'abs_date_reference_independent', 'two_digit_year', 'two_digit_year_gap',
                      'two_digit_year_witness', 'invalid_date_not_resolved', 'pivots_sane', 'ymd_shape',
                      'month_map_en', 'day_map_en', 'english_month_names',
@@ -546,6 +546,7 @@ def correspond(ctx):
     unit_match_to_date_zh(ctx, T, contract)
     unit_resolution(ctx, T)
     replay_witnesses(ctx, T)
+    datefrontcorr.unit(ctx, T, contract, render); datefrontcorr.grid(ctx, T, contract, render, judge)
     pipeline(ctx, contract)
     shared_text_histories(ctx, contract)
 
